@@ -123,7 +123,25 @@ func (e *Engine) call(fr *frame, ins ssa.Instruction, cc *ssa.CallCommon, reach 
 	case FuncVal:
 		fn, bind = cv.Fn, cv.Bind
 	default:
-		e.abstracted["call through function value at "+e.posOf(ins.Pos())]++
+		// call through a function value that is not statically known: every function of the
+		// repository with the same signature whose value is taken somewhere may be the callee;
+		// the union of their (inferred) write sets is havocked, the result is unconstrained
+		sig, _ := under(cc.Value.Type()).(*types.Signature)
+		cands := e.addressTakenFuncs(sig)
+		e.abstracted[fmt.Sprintf("call through function value at %s (%d possible callees, inferred frame)", e.posOf(ins.Pos()), len(cands))]++
+		ws := &writeScanner{e: e, keys: map[string]bool{}, seen: map[string]bool{}}
+		for _, f := range cands {
+			ws.scanFn(f, nil)
+		}
+		for _, k := range append([]string{}, e.compOrder...) {
+			if e.inModSet(ws.keys, k) {
+				cp := e.comps[k]
+				fresh := e.sc.declare("Hdyn_"+k, cp.sort)
+				heap[k] = e.sc.define("Hd_"+k, cp.sort, ite(e.guard, fresh, e.heapGet(heap, cp)))
+				e.dirty[k] = true
+			}
+		}
+		e.pendingWrites = append(e.pendingWrites, ws.keys)
 		return e.havocResult(resT, "dyncall"), reach
 	}
 	return e.callFunc(fr, ins, fn, args, bind, resT, reach, heap, cc)
@@ -1042,4 +1060,79 @@ func calleeMatches(full, pat string) bool {
 		return pre + star + rest
 	}
 	return norm(full) == norm(pat)
+}
+
+// addressTakenFuncs lists the repository functions (including closures) with the
+// given signature that are used as values somewhere in the repository.
+func (e *Engine) addressTakenFuncs(sig *types.Signature) []*ssa.Function {
+	if sig == nil {
+		return nil
+	}
+	key := sig.String()
+	if r, ok := e.w.dynCache.Load(key); ok {
+		return r.([]*ssa.Function)
+	}
+	taken := map[*ssa.Function]bool{}
+	var visit func(fn *ssa.Function)
+	seen := map[*ssa.Function]bool{}
+	visit = func(fn *ssa.Function) {
+		if seen[fn] {
+			return
+		}
+		seen[fn] = true
+		for _, b := range fn.Blocks {
+			for _, ins := range b.Instrs {
+				var ops []*ssa.Value
+				ops = ins.Operands(ops)
+				isCallee := func(v ssa.Value) bool {
+					if ci, ok := ins.(ssa.CallInstruction); ok {
+						return ci.Common().Value == v
+					}
+					return false
+				}
+				for _, op := range ops {
+					if op == nil || *op == nil {
+						continue
+					}
+					switch x := (*op).(type) {
+					case *ssa.Function:
+						if !isCallee(x) {
+							taken[x] = true
+						}
+					case *ssa.MakeClosure:
+						if f, ok := x.Fn.(*ssa.Function); ok && !isCallee(x) {
+							taken[f] = true
+						}
+					}
+				}
+				if mc, ok := ins.(*ssa.MakeClosure); ok {
+					if f, ok := mc.Fn.(*ssa.Function); ok {
+						taken[f] = true
+					}
+				}
+			}
+		}
+		for _, af := range fn.AnonFuncs {
+			visit(af)
+		}
+	}
+	for path, sp := range e.w.SSA {
+		if !strings.HasPrefix(path, repoModule) {
+			continue
+		}
+		for _, m := range sp.Members {
+			if f, ok := m.(*ssa.Function); ok {
+				visit(f)
+			}
+		}
+	}
+	var res []*ssa.Function
+	for f := range taken {
+		if types.Identical(f.Signature, sig) {
+			res = append(res, f)
+		}
+	}
+	sort.Slice(res, func(i, j int) bool { return res[i].String() < res[j].String() })
+	e.w.dynCache.Store(key, res)
+	return res
 }
